@@ -459,6 +459,18 @@ Definition wrapper (hs : res Session) (is_client : bool) (want : option (list Z)
     end
   end.
 
+(* the same with checker.Checker's treatment of RESUMED connections (checker.py 60-62): unless the Checker
+   was built with checkResumedSession=True it returns at once when connection.resumed is set -- for a server
+   this includes identities restored from a session ticket, which was sent BEFORE the Checker ran on the full
+   handshake *)
+Definition wrapper_r (hs : res Session) (is_client : bool) (want : option (list Z))
+                     (fp : list Z -> list Z) (resumed check_resumed : bool) : res Session :=
+  if resumed && negb check_resumed then map_exn hs else wrapper hs is_client want fp.
+
+(* witness: the ticket of a client whose chain [9] the server's Checker (expects [21]) rejected *)
+Definition session_w3 : Session :=
+  {| s_server_chain := Some [1]; s_client_chain := Some [9]; s_srp_user := None; s_dc := false; s_psk := Some 5 |}.
+
 (* ---- evaluation against recorded oracle answers (correspondence) ---------------------- *)
 Fixpoint lookup_kb (t : list (Z * list Z * bool)) (k : Z) (b : list Z) : bool :=
   match t with
@@ -530,7 +542,7 @@ Definition matches_observed (flow : Z) (a : Answers) (r : Run) (is_client : bool
 (* ---- concrete runs used by Examples and by the refutation witnesses -------------------- *)
 Definition orc_const (answer : bool) : Orc :=
   {| sig_ok := fun _ _ _ _ => answer; fin_ok := fun _ _ _ => answer; binder_ok := fun _ _ _ => answer;
-     o_digest := fun tr _ => tr; o_digestSSL := fun tr _ _ => tr;
+     o_digest := fun tr _ => tr; o_digestSSL := fun tr _ _ => (repeat 0 16 ++ tr)%list;   (* 16 bytes "md5_hash", then the "sha_hash" *)
      o_calc_key := fun _ _ _ _ _ _ _ => []; o_pkcs1 := fun d _ => d; o_hash := fun d _ => d |}.
 
 Definition cert0 : CertMsg :=
